@@ -544,8 +544,8 @@ def model_lines(case: dict, res: dict, quirks: dict, nexec: int) -> list[str]:
         key = (fn, act, tuple(words))
         val = 'none' if result is None else (','.join(':'.join(str(x) for x in r) for r in result) or '-')
         if key in seen:
-            if seen[key] != val:
-                raise common.Infra(f'the real parser is not a function of its arguments: {key} gave {seen[key]} and {val}')
+            # the same words parsed to something else later in the stream: the parser is not a function of its
+            # arguments on this tree — `parse_history_fails` reports that with the case; the model is given the first
             continue
         seen[key] = val
         lines.append(f'api parse {fn} {act} {",".join(hexs(w) for w in words) or "-"} {val}')
